@@ -1,5 +1,8 @@
 package main
 
+// Normal-tier legs over dimensions the generators do not vary: diversity.go; legs4.go (back: clocks that read LOWER than at the
+// previous poll; realclock: started schedulers with time units that are not whole milliseconds on the real clock).
+
 // Failing-input search legs of C05 (only with -search; see hxtimers/search.go for what each leg is aimed at).
 // Every start request is accepted at once, as everywhere in hx_c05; the judge is the ordinary reference table.
 
